@@ -3,6 +3,8 @@
 // future/promise internals are C01/C02's subject), so the scheduling points are exactly: the end of every critical
 // section on the pool mutex, a blocking condition wait, a join, the end of a thread.
 //
+//   case <id> pool <nworkers> [cvy] [B]  B: a second pool instance (one worker = thread <nworkers>, clients start one later); nothing
+//                                        is submitted to it, it is stopped / deleted by `stopB` / `destroyB` ops and the prims b / B
 //   case <id> pool <nworkers> [cvy]     cvy: scheduling point at the entry of the pool's _cond.wait (predicate evaluated, mutex held)
 //   c <op>...              one line per client thread (threads nworkers, nworkers+1, ...)
 //   sched <tid>...
@@ -71,6 +73,7 @@ struct grab {
 
 struct Scn {
     thread_pool *pool = nullptr;
+    thread_pool *poolB = nullptr;   // optional second instance (one worker, never a submission): only stopped / destroyed
     int nw = 0;
     std::deque<JobRec> jobs;
     bool flags[10] = {};
@@ -121,6 +124,19 @@ struct Scn {
         pool = nullptr;
         log("destroyed " + tid());
     }
+    void do_stopB() {
+        log("stopB-begin " + tid());
+        poolB->stop();
+        log("stopB-end " + tid());
+    }
+    void do_destroyB() {
+        if (!poolB) { log("destroyB-skip " + tid()); return; }
+        log("destroyB-begin " + tid());
+        thread_pool *p = poolB;
+        delete p;
+        poolB = nullptr;
+        log("destroyedB " + tid());
+    }
     void do_wait(int f) {
         if (!flags[f]) {
             S().log_op("flag-block f" + std::to_string(f));
@@ -136,6 +152,8 @@ struct Scn {
                 case 'f': submit("fn", ""); break;
                 case 'd': submit("det", ""); break;
                 case 'D': do_destroy(); break;
+                case 'b': do_stopB(); break;
+                case 'B': do_destroyB(); break;
                 case 'w': if (i + 1 < prims.size()) do_wait((prims[++i] - '0') % 10); break;
                 case 'e':
                     if (i + 1 < prims.size()) {
@@ -237,6 +255,8 @@ struct Scn {
         for (auto &op : ops) {
             if (op == "stop") do_stop();
             else if (op == "destroy") do_destroy();
+            else if (op == "stopB") do_stopB();
+            else if (op == "destroyB") do_destroyB();
             else {
                 auto c = op.find(':');
                 if (c == std::string::npos) submit(op, "");
@@ -262,15 +282,25 @@ struct Scn {
         if (pool) log("pool exit=" + std::string(pool->_exit ? "1" : "0") + " queue=" + std::to_string(pool->_queue.size()) +
                       " threads=" + std::to_string(pool->_threads.size()));
         else log("pool destroyed");
+        if (has_b) {
+            if (poolB) log("poolB exit=" + std::string(poolB->_exit ? "1" : "0") + " threads=" + std::to_string(poolB->_threads.size()));
+            else log("poolB destroyed");
+        }
     }
 
     bool cv_yield = false;
+    bool has_b = false;
     void run(int nworkers, const std::vector<std::vector<std::string>> &clients, const std::vector<int> &sched) {
         nw = nworkers;
         pool = new thread_pool(nworkers);
         S().name_obj(&pool->_mx, "mx");
         S().name_obj(&pool->_cond, "cv");
         if (cv_yield) S().yield_on_cv_entry = &pool->_cond;
+        if (has_b) {
+            poolB = new thread_pool(1);
+            S().name_obj(&poolB->_mx, "mxB");
+            S().name_obj(&poolB->_cond, "cvB");
+        }
         for (auto &c : clients) {
             std::vector<std::string> ops(c.begin() + 1, c.end());
             S().spawn([this, ops] { client(ops); });
@@ -304,6 +334,7 @@ static void run_case(const std::vector<std::string> &hdr, const std::vector<std:
     if (nw < 1) nw = 1;
     Scn *s = new Scn;
     s->cv_yield = std::find(hdr.begin(), hdr.end(), "cvy") != hdr.end();
+    s->has_b = std::find(hdr.begin(), hdr.end(), "B") != hdr.end();
     s->run(nw, clients, sched);
     S().log_line("end");
     std::cout.flush();
